@@ -81,7 +81,22 @@ def build_extract_and_gen(log):
     return rc, out, changed, hashes
 
 
+def trim_go_cache(limit_gb=12):
+    """Best effort: every harness build against a different tree adds to Go's build cache; keep it bounded."""
+    try:
+        rc, out = sh(["go", "env", "GOCACHE"], env=GOENV)
+        d = out.strip()
+        if rc != 0 or not d or not os.path.isdir(d):
+            return
+        rc, out = sh(["du", "-s", "-BG", d])
+        if rc == 0 and int(out.split()[0].rstrip("G")) > limit_gb:
+            sh(["go", "clean", "-cache"], env=GOENV)
+    except Exception:
+        pass
+
+
 def build_harness(dst):
+    trim_go_cache()
     h = os.path.join(ROOT, "harness")
     tmpl = open(os.path.join(h, "go.mod.tmpl")).read().replace("@REPO@", REPO)
     with open(os.path.join(h, "go.mod"), "w") as f:
